@@ -18,6 +18,8 @@ thread_local! {
     static TRACK: Cell<bool> = const { Cell::new(false) };
     static MAX_REQ: Cell<usize> = const { Cell::new(0) };
     static TOTAL_REQ: Cell<usize> = const { Cell::new(0) };
+    /// bytes allocated minus bytes freed by this thread (all code, tracked or not)
+    static LIVE: Cell<isize> = const { Cell::new(0) };
     static PANICS: RefCell<Vec<String>> = const { RefCell::new(Vec::new()) };
 }
 
@@ -26,17 +28,21 @@ pub struct Counting;
 unsafe impl GlobalAlloc for Counting {
     unsafe fn alloc(&self, l: Layout) -> *mut u8 {
         note(l.size());
+        live(l.size() as isize);
         unsafe { System.alloc(l) }
     }
     unsafe fn alloc_zeroed(&self, l: Layout) -> *mut u8 {
         note(l.size());
+        live(l.size() as isize);
         unsafe { System.alloc_zeroed(l) }
     }
     unsafe fn dealloc(&self, p: *mut u8, l: Layout) {
+        live(-(l.size() as isize));
         unsafe { System.dealloc(p, l) }
     }
     unsafe fn realloc(&self, p: *mut u8, l: Layout, n: usize) -> *mut u8 {
         note(n);
+        live(n as isize - l.size() as isize);
         unsafe { System.realloc(p, l, n) }
     }
 }
@@ -53,6 +59,17 @@ fn note(size: usize) {
             let _ = TOTAL_REQ.try_with(|m| m.set(m.get().saturating_add(size)));
         }
     });
+}
+
+#[inline]
+fn live(delta: isize) {
+    let _ = LIVE.try_with(|m| m.set(m.get().wrapping_add(delta)));
+}
+
+/// Bytes this thread has allocated and not freed (meaningful as a difference between two quiescent points of one
+/// thread that frees what it allocates).
+pub fn live_bytes() -> isize {
+    LIVE.with(|m| m.get())
 }
 
 pub fn reset_alloc() {
